@@ -44,29 +44,16 @@ Proof.
   change (16 ^ Z.of_nat 16) with (2 ^ 64). rewrite Z.add_comm, Z_mod_plus_full. reflexivity.
 Qed.
 
-(* decimal integer numerals: correct below 2^63 and from 2^64 on … *)
-Theorem go_dec_partial : forall ds, digits_ok 10 ds ->
-  let n := digits_val 10 ds 0 in (n < 2 ^ 63 \/ 2 ^ 64 <= n) -> go_dec ds = s_dec ds.
+(* decimal integer numerals: an integer if it fits, else a float (repaired
+   ast.NewNumber: ParseInt, then ParseFloat) *)
+Theorem go_dec_correct : forall ds, go_dec ds = s_dec ds.
 Proof.
-  intros ds Hd n Hn. unfold go_dec, s_dec. fold n.
-  assert (H0 : 0 <= n) by (apply digits_val_nonneg; [lia|exact Hd|lia]).
-  destruct Hn as [Hn|Hn].
-  - replace (n <? 2 ^ 64) with true by (symmetry; apply Z.ltb_lt; lia).
-    replace (n <? 2 ^ 63) with true by (symmetry; apply Z.ltb_lt; lia).
-    f_equal. unfold wrap64. rewrite Z.mod_small by lia.
-    replace (n <? 2 ^ 63) with true by (symmetry; apply Z.ltb_lt; lia). reflexivity.
-  - replace (n <? 2 ^ 64) with false by (symmetry; apply Z.ltb_ge; lia).
-    replace (n <? 2 ^ 63) with false by (symmetry; apply Z.ltb_ge; lia). reflexivity.
+  intros ds. unfold go_dec, s_dec. set (n := digits_val 10 ds 0).
+  destruct (n <? 2 ^ 63) eqn:E.
+  - apply Z.ltb_lt in E. replace (n <=? 2 ^ 63 - 1) with true by (symmetry; apply Z.leb_le; lia). reflexivity.
+  - apply Z.ltb_ge in E. replace (n <=? 2 ^ 63 - 1) with false by (symmetry; apply Z.leb_gt; lia). reflexivity.
 Qed.
 
-(* … and wrong in between: 9223372036854775808 is read as mininteger *)
-Theorem go_dec_refuted : exists ds, digits_ok 10 ds /\ go_dec ds <> s_dec ds.
-Proof.
-  exists [9;2;2;3;3;7;2;0;3;6;8;5;4;7;7;5;8;0;8]. split.
-  - repeat constructor; lia.
-  - vm_compute. discriminate.
-Qed.
-
-Example go_dec_partial_satisfiable :
-  digits_ok 10 [1;8;4;4;6;7;4;4;0;7;3;7;0;9;5;5;1;6;1;6] /\ 2 ^ 64 <= digits_val 10 [1;8;4;4;6;7;4;4;0;7;3;7;0;9;5;5;1;6;1;6] 0.
-Proof. split; [repeat constructor; lia|vm_compute; discriminate]. Qed.
+(* the former defect's witness: 9223372036854775808 denotes a float *)
+Example go_dec_2_63 : go_dec [9;2;2;3;3;7;2;0;3;6;8;5;4;7;7;5;8;0;8] = NFloatOf (2 ^ 63).
+Proof. vm_compute. reflexivity. Qed.
